@@ -4,7 +4,7 @@ from fractions import Fraction as F
 from mc.lattice import cube
 from mc.oracle import css_color, wcag
 
-ALPHAS = ["0", "0.004", "0.01", "0.25", "0.5", "0.75", "0.99", "0.996", "1"]
+ALPHAS = ["0", "0.004", "0.01", "0.25", "0.5", "0.75", "0.99", "0.996", "1", ".5", ".8", "0.50", "1.0", "0.0"]
 HSL_FG = ["hsla(210, 65%%, 20%%, %s)", "hsla(0, 100%%, 50%%, %s)", "hsla(120, 40%%, 75%%, %s)", "hsla(300, 10%%, 5%%, %s)",
           "hsla(48, 90%%, 60%%, %s)", "hsla(-90, 55%%, 35%%, %s)"]
 
@@ -27,6 +27,8 @@ def _value(spell_kind, fg, a_txt):
     if spell_kind == "hsla":
         return fg % a_txt
     a = float(a_txt) if a_txt not in ("0", "1") else int(a_txt)
+    if spell_kind in ("tuple", "list") and a_txt in (".5", ".8", "0.50", "1.0", "0.0"):
+        return None  # spelling variants only exist for strings
     if spell_kind == "tuple":
         return tuple(fg) + (a,)
     return list(fg) + [a]
@@ -37,6 +39,8 @@ def judge_text(spell_kind, fg, a_txt, bg, fix=False):
 
     bg = tuple(bg)
     val = _value(spell_kind, fg, a_txt)
+    if val is None:
+        return []
     case = {"kind": "text", "spell": spell_kind, "fg": fg if isinstance(fg, str) else list(fg), "alpha": a_txt, "bg": list(bg), "fix": fix}
     try:
         pair = ColorPair(val, bg)
@@ -99,6 +103,8 @@ def judge_bg(spell_kind, fg, a_txt, text):
     from cm_colors import ColorPair
 
     val = _value(spell_kind, fg, a_txt)
+    if val is None:
+        return []
     case = {"kind": "bg", "spell": spell_kind, "fg": fg if isinstance(fg, str) else list(fg), "alpha": a_txt,
             "text": text if isinstance(text, str) else list(text)}
     tv = text if isinstance(text, str) else tuple(text)
